@@ -139,3 +139,9 @@ func (t *Tape) Biased(n, num, den int) int {
 		return 1 + r.Intn(n-1)
 	})
 }
+
+// Fixed records v as a choice in generation mode (used for plan slots that the
+// explorer fills in explicitly); in replay mode it reads the tape like Draw.
+func (t *Tape) Fixed(n, v int) int {
+	return t.DrawG(n, func(*Rand) int { return v })
+}
